@@ -69,7 +69,7 @@ def run(ctx):
 
     def rel(a, b):
         a, b = np.asarray(a), np.asarray(b)
-        if a.shape != b.shape or not np.all(np.isfinite(a)):
+        if a.shape != b.shape or not np.all(np.isfinite(a)) or not np.all(np.isfinite(b)):
             return 10 ** 9
         return int(min(10 ** 9, round(float(np.max(np.abs(a - b)) / max(np.max(np.abs(b)), 1e-300)) * 1e12 / 1000))) * 1000 // 1000
 
@@ -82,7 +82,11 @@ def run(ctx):
         n = rnd.choice([8, 9, 64, 125, 1024, 31, 2, 3, 16, 128])
         npol = rnd.choice([1, 2])
         rs = np.random.RandomState(it)
-        x = (rs.randn(npol, n) + 1j * rs.randn(npol, n)) * 0.1
+        x = (rs.randn(npol, n) + 1j * rs.randn(npol, n)) * [0.1, 1e-9, 30.0, 1e-13, 0.1][it % 5]         # ordinary, very weak and strong fields
+        if npol == 2 and it % 7 in (0, 3):
+            x[it % 7 // 3] = 0                                   # an empty x or y polarisation
+        if it % 29 == 28:
+            x[:] = 0                                             # a dark field
         if n % gv.sps == 0 and it % 3 == 0:
             with warnings.catch_warnings():
                 warnings.simplefilter("ignore")
@@ -111,12 +115,16 @@ def run(ctx):
                 ein = np.sum(np.abs(np.atleast_2d(sig.signal)) ** 2, axis=-1)
                 eout = np.sum(np.abs(np.atleast_2d(o.signal)) ** 2, axis=-1)
                 for p in range(npol):
-                    ratio = eout[p] / (ein[p] * 10 ** (-dB / 10))
-                    events.append({"kind": "energy", "what": kind, "ppb": int(min(10 ** 9, abs(ratio - 1) * 1e9)), "dB": int(math.ceil(dB))})
+                    if ein[p] == 0:
+                        ppb = 0 if eout[p] == 0 else 10 ** 9                                  # nothing in, nothing out
+                    else:
+                        ratio = eout[p] / (ein[p] * 10 ** (-dB / 10))
+                        ppb = int(min(10 ** 9, abs(ratio - 1) * 1e9)) if np.isfinite(ratio) else 10 ** 9
+                    events.append({"kind": "energy", "what": kind, "ppb": ppb, "dB": int(math.ceil(dB))})
                     meta.append(("energy", kind))
                 events.append({"kind": "shape", "same": bool(type(o) is optical_signal and o.n_pol == npol and len(o) == n and o.signal.shape == sig.signal.shape)})
                 meta.append(("shape", kind))
-        ctx.case(("laws", n % 2, n > 100, npol, it % 2, al > 0, b3 != 0))
+        ctx.case(("laws", n % 2, n > 100, npol, it % 2, al > 0, b3 != 0, it % 5, bool(np.any(np.all(x == 0, axis=-1)))))
     gv.clean()
     for idx, clause in ctx.validate("ChannelTrace", events, note="laws/energies"):
         m = meta[idx - 1]
